@@ -36,7 +36,10 @@ def main():
         ax = v.axioms()
         if req.get("canary"):
             os.environ["PYVC_NO_EXTERNAL"] = "1"
-        for ob in obs:
+        shard = req.get("shard")
+        for idx, ob in enumerate(obs):
+            if shard and idx % shard[1] != shard[0]:
+                continue
             verdict, backend, ms, detail = smt.check(ob, ax, budget)
             out["obligations"].append({"name": ob.name, "kind": ob.kind, "props": ob.props, "verdict": verdict,
                                        "backend": backend, "ms": ms, "detail": (detail or "")[:4000], "info": ob.info})
